@@ -772,15 +772,95 @@ fn c02(r: &Runner) {
     for bits in [0usize, 1, 7, 64, 65, 128, 129, 256, 257] {
         long_seqs(r, "long products", bits, PRODUCTS, true);
     }
+    for bits in [128usize, 129, 192, 256, 320] {
+        let sv = solved_2x2();
+        let nlb = nlimbs(bits);
+        r.universe(&format!("{} solved pairs (two carries out of the middle column of a 2x2-limb product) in the low limbs", sv.len()), bits, sv.len(), |i, l| {
+            for hi in [0u64, 1, u64::MAX] {
+                let mut a = sv[i].0.clone();
+                a.resize(nlb, hi);
+                let mut b = sv[i].1.clone();
+                b.resize(nlb, 0);
+                let last = nlb - 1;
+                a[last] &= mask(bits);
+                l.states(1);
+                for &op in C02_BIN {
+                    exec(l, bits, op, &[vu(&a), vu(&b)]);
+                    exec(l, bits, op, &[vu(&b), vu(&a)]);
+                }
+            }
+        });
+    }
     if !SWEEP {
         widening(r);
     }
 }
 
 // widening_mul needs four const parameters: its own shim and grid.
+/// SOLVED operands for the middle column of a 2 x 2-limb product: a = a1:a0, b = b1:b0 with a0*b1 + a1*b0 = T for a
+/// target T just below 2^128 such that adding the high word of a0*b0 crosses 2^128 - two carries out of one column
+/// (density 2^-64 under any alphabet or random choice; the extreme-limb alphabets miss the window by 2).
+fn solved_2x2() -> Vec<(Limbs, Limbs)> {
+    let words: [u64; 8] = [u64::MAX, u64::MAX - 2, (1 << 63) + 1, 0x9E37_79B9_7F4A_7C15, 0xC2B2_AE3D_27D4_EB4F, 0xffff_ffff_0000_0001, 0x8000_0000_8000_0001, 1_000_000_007 * 9_999_999_967];
+    let p128 = pow2(128);
+    let p64 = pow2(64);
+    let mut out = vec![];
+    for &a0 in &words {
+        for &b0 in &words {
+            let (ba0, bb0) = (BigUint::from(a0), BigUint::from(b0));
+            let Some(inv) = (&ba0 % &bb0).modinv(&bb0) else { continue };
+            let h = (&ba0 * &bb0) >> 64usize;
+            if h.is_zero() {
+                continue;
+            }
+            for t in [&p128 - 1u32, &p128 - &h, &p128 - (&h >> 1usize) - 1u32, &p128 - &h + 1u32, &p128 - &h - 1u32, &p128 - 2u32] {
+                let b1 = (&t % &bb0) * &inv % &bb0;
+                let rest = &ba0 * &b1;
+                if rest > t {
+                    continue;
+                }
+                let num = &t - rest;
+                if !(&num % &bb0).is_zero() {
+                    continue;
+                }
+                let a1 = num / &bb0;
+                if a1 >= p64 || b1 >= p64 {
+                    continue;
+                }
+                let w = |x: &BigUint| x.iter_u64_digits().next().unwrap_or(0);
+                out.push((vec![a0, w(&a1)], vec![b0, w(&b1)]));
+            }
+        }
+    }
+    out.sort();
+    out.dedup();
+    out
+}
+
 fn wm<const B1: usize, const L1: usize, const B2: usize, const L2: usize, const B3: usize, const L3: usize>(r: &Runner) {
     let ua = if B1 <= 8 { small_all(B1) } else { wide(B1, A5, true, &[]).0 };
     let ub = if B2 <= 8 { small_all(B2) } else { wide(B2, A5, true, &[]).0 };
+    if B1 >= 128 && B2 >= 128 {
+        // solved column carries in the low two limbs (upper limbs zero)
+        let sv = solved_2x2();
+        r.universe(&format!("widening_mul {B1}x{B2}: {} solved pairs (two carries out of the middle column of a 2x2-limb product)", sv.len()), B1, sv.len(), |i, l| {
+            for (x, y) in [(&sv[i].0, &sv[i].1), (&sv[i].1, &sv[i].0)] {
+                let mut xa = x.clone();
+                xa.resize(L1, 0);
+                let mut yb = y.clone();
+                yb.resize(L2, 0);
+                let args = [vu(&xa), vu(&yb)];
+                l.states(1);
+                let got = l.guard("widening_mul", "|a: Uint<B1,L1>, b: Uint<B2,L2>| a.widening_mul::<B2, L2, B3, L3>(b)", B1, &args, || {
+                    let a: Uint<B1, L1> = FromV::<B1, L1>::from_v(&args[0]);
+                    let b: Uint<B2, L2> = FromV::<B2, L2>::from_v(&args[1]);
+                    a.widening_mul::<B2, L2, B3, L3>(b).into_v()
+                });
+                let p = big(&xa) * big(&yb);
+                l.record("widening_mul", "a.widening_mul(b)", B1, &args, got, is(V::U(to_limbs(&p, B3))).nt(true));
+            }
+        });
+    }
     let name = format!("widening_mul {B1}x{B2}");
     r.universe(&name, B1, ua.len(), |i, l| {
         for bb in &ub {
